@@ -1,8 +1,11 @@
 """C17 — automatically discovered routes are canonical and always reach the client.
 
 Correspondence: the real sshuttle.server._ipmatch / _maskbits / _route_iproute /
-_route_netstat / _list_routes, the real sshuttle.server.main (start-up up to the
-ROUTES message, fake Popen producing generated `ip route` / `netstat -rn` texts)
+_route_netstat / _route_windows / _list_routes / list_routes (every branch of its tool
+choice: win32, ip, netstat, neither; tool exit status zero and non-zero), the real
+sshuttle.server.main (start-up up to the ROUTES message, on linux and on win32 with a
+stand-in for helpers.SocketRWShim; fake Popen producing generated `ip route` /
+`netstat -rn` / `route PRINT -4` texts)
 and the real sshuttle.client._main (handshake, Mux, onroutes, recording firewall
 stub) are run against the extracted Coq model (coq/Model/Routes.v) on the same
 generated inputs.  Independent oracle for well-formed tables: ipaddress.ip_network."""
@@ -15,7 +18,8 @@ import struct
 import sys
 
 PROP = "C17"
-RULE = ("routing-table texts: iproute2, Linux netstat (all 33 contiguous netmasks + non-contiguous ones: every single bit, every pair of bits, contiguous with one hole / "
+RULE = ("routing-table texts: iproute2, Windows `route PRINT -4` (On-link and gateway rows, host routes, loopback / multicast / link-local "
+        "rows, CRLF, headers, every prefix length, arbitrary netmask values), no routing tool at all, tools that exit non-zero, Linux netstat (all 33 contiguous netmasks + non-contiguous ones: every single bit, every pair of bits, contiguous with one hole / "
         "one stray bit, byte patterns, random) and BSD netstat "
         "(abbreviated a / a.b / a.b.c with and without /width) with 0..40000 routes, every prefix length, host bits set, "
         "default/127.x/0.x entries, header and IPv6 lines, interleaved junk (a/b/c, x/, x/yy, octets > 255, octal octets, "
@@ -27,13 +31,17 @@ TRUSTED_BASE = [
     "modelled, not verified: CPython re (the _ipmatch pattern, re-implemented as a structural recogniser and differential-tested on ASCII strings), "
     "str.split(None)/bytes.strip/bytes.split, int() of ASCII text incl. the 4300-digit limit (sys.int_info.default_max_str_digits), "
     "'%d'/'%s' formatting, glibc inet_aton on dotted quads (leading 0 = octal) and inet_ntoa, float conversion overflow in 2 ** negative",
-    "fake Popen (stdout = io.BytesIO(text), wait() = 0), fake which(), fake FileIO/stdout for server.main, fake ssh.connect / runonce and a recording firewall stub for client._main",
+    "fake Popen (stdout = io.BytesIO(text), wait() = 0 or a non-zero status), fake which(), sys.platform as seen by server.py = 'linux' or 'win32' "
+    "(then helpers.SocketRWShim is replaced by a pass-through: its threads are not run), fake FileIO/stdout for server.main, fake ssh.connect / runonce and a recording firewall stub for client._main",
     "socket.AF_INET = 2, socket.AF_INET6 = 10 (Linux values; defined in Model/Routes.v)",
 ]
 ASSUMPTIONS = [
     "the routing tool's output reaches _list_routes as bytes; str-level functions are modelled for ASCII text only, because the only producer is line.decode('ASCII') (non-ASCII bytes are modelled as UnicodeDecodeError / skipped after the F7 repair)",
     "as-found code with a negative prefix length w needs about 2^(-w)/8 bytes of memory for 2 ** (32 - w); the as-found model assumes it is available (tested only for w >= -2000 and for the OverflowError threshold)",
-    "non-Windows branch of list_routes only (sys.platform != 'win32'); the ROUTES message is sent in one frame, as the code does",
+    "the ROUTES message is sent in one frame, as the code does",
+    "Windows (`route PRINT -4`): the property text names the iproute2 and netstat formats only; for the Windows parser the oracle asks that "
+    "no line ends the server, that every advertised network is the canonical network of a printed On-link row (in order) and that the "
+    "advertisement is delivered - WHICH rows are advertised (On-link only, no host routes, no 127./0./224./169.254.) is compared with the model as coded",
     "host routes printed by iproute2 without '/len' (e.g. '10.1.2.3 dev eth0') are not routes for _route_iproute: it requires a '/' in the first token (as coded; reported, not counted as a violation)",
 ]
 
@@ -111,32 +119,66 @@ def impl_extract(fn, line):
 
 class FakePopen:
     text = b""
+    rv = 0
+    argvs = []
 
     def __init__(self, argv, **kw):
         self.argv = argv
+        FakePopen.argvs.append(list(argv))
         self.stdout = io.BytesIO(FakePopen.text)
 
     def wait(self):
-        return 0
+        return FakePopen.rv
 
 
-TOOLS = {"ip": (["ip", "route"], "_route_iproute"), "netstat": (["netstat", "-rn"], "_route_netstat")}
+TOOLS = {"ip": (["ip", "route"], "_route_iproute"), "netstat": (["netstat", "-rn"], "_route_netstat"),
+         "win": (["route", "PRINT", "-4"], "_route_windows")}
 
 
-def impl_lr(tool, text):
-    """real _list_routes on a generated tool output"""
+def impl_lr(tool, text, rv=0):
+    """real _list_routes on a generated tool output (rv = the tool's exit status)"""
     server = load()["server"]
-    old = server.ssubprocess.Popen
+    old = (server.ssubprocess.Popen, server.log)
     FakePopen.text = text
+    FakePopen.rv = rv
     server.ssubprocess.Popen = FakePopen
+    server.log = lambda s: None
     try:
         try:
             rs = server._list_routes(TOOLS[tool][0], getattr(server, TOOLS[tool][1]))
         except Exception as e:
             return "CRASH " + exc_name(e)
     finally:
-        server.ssubprocess.Popen = old
+        server.ssubprocess.Popen, server.log = old
+        FakePopen.rv = 0
     return "OK " + ",".join("%s/%d" % (ip, w) for (_f, ip, w) in rs)
+
+
+def impl_list_routes(tool, text, rv=0):
+    """real list_routes() - the generator with the tool choice (sys.platform, which) and the 0.x / 127.x filter -
+    with `tool` as the only routing tool of the machine ('win': sys.platform == 'win32'; 'none': neither ip nor netstat).
+    Returns ('OK a/w,...' | 'CRASH cls', argv lists of the commands started)."""
+    server = load()["server"]
+    shim = SysShim()
+    shim.platform = "win32" if tool == "win" else "linux"
+    old = (server.ssubprocess.Popen, server.which, server.sys, server.log)
+    FakePopen.text = text
+    FakePopen.rv = rv
+    FakePopen.argvs = []
+    server.ssubprocess.Popen = FakePopen
+    server.which = lambda f, *a, **k: ("/sbin/" + f if f == tool else None)
+    server.sys = shim
+    server.log = lambda s: None
+    try:
+        try:
+            rs = list(server.list_routes())
+            res = "OK " + ",".join("%s/%d" % (ip, w) for (_f, ip, w) in rs)
+        except Exception as e:
+            res = "CRASH " + exc_name(e)
+    finally:
+        server.ssubprocess.Popen, server.which, server.sys, server.log = old
+        FakePopen.rv = 0
+    return res, list(FakePopen.argvs)
 
 
 class SysShim:
@@ -174,8 +216,21 @@ class IoShim:
         return getattr(io, k)
 
 
-def impl_server(tool, text):
-    """real server.main (auto_nets on) up to the first runonce.
+class PassThroughShim:
+    """stands for helpers.SocketRWShim (win32 only: two threads copying between stdio and a socket pair)"""
+    made = 0
+
+    def __init__(self, r, w, on_end=None):
+        self.r, self.w = r, w
+        PassThroughShim.made += 1
+
+    def makefiles(self):
+        return self.r, self.w
+
+
+def impl_server(tool, text, rv=0):
+    """real server.main (auto_nets on) up to the first runonce; `tool` is the machine's only routing tool
+    ('win': sys.platform == 'win32', 'none': neither ip nor netstat), rv its exit status.
     Returns ('OK', payload, wire) or ('CRASH', cls, None)."""
     S = load()
     server, ssnet, helpers = S["server"], S["ssnet"], S["helpers"]
@@ -188,9 +243,15 @@ def impl_server(tool, text):
     def fake_which(f, *a, **k):
         return "/sbin/" + f if f == tool else None
     shim = SysShim()
+    shim.platform = "win32" if tool == "win" else "linux"
     old = (server.ssubprocess.Popen, server.which, server.sys, server.io, ssnet.runonce, helpers.logprefix)
     oldlog = (helpers.log, server.log)
+    oldshim = server.SocketRWShim
+    server.SocketRWShim = PassThroughShim
+    made0 = PassThroughShim.made
     FakePopen.text = text
+    FakePopen.rv = rv
+    FakePopen.argvs = []
     server.ssubprocess.Popen = FakePopen
     server.which = fake_which
     server.sys = shim
@@ -207,6 +268,10 @@ def impl_server(tool, text):
     finally:
         (server.ssubprocess.Popen, server.which, server.sys, server.io, ssnet.runonce, helpers.logprefix) = old
         helpers.log, server.log = oldlog
+        server.SocketRWShim = oldshim
+        FakePopen.rv = 0
+    if (PassThroughShim.made - made0) != (1 if tool == "win" else 0):
+        return ("CRASH", "stdio-shim-used-%d-times-on-%s" % (PassThroughShim.made - made0, shim.platform), None)
     mux = cap["mux"]
     wire = shim.stdout.getvalue().encode("latin-1") + b"".join(bytes(x) for x in mux.outbuf)
     payload = None
